@@ -54,7 +54,19 @@ Section Mon.
     end.
 End Mon.
 
-Definition judge09p (c : pcase) : bool * bool := (agree c, m09p c).
+(** C09 "yet keeps probing them and reporting Available": where no third party acts and nothing is injected, a paused
+    pass of the model ends with the objects the cache holds as actual objects and the missing ones as failed
+    (props/C09.v C09_paused_still_probes, per object); the implementation's pass must then end the same way: same keys
+    among the actual objects (what becomes status.controllerOf), same failed keys, and not in an error instead.
+    Consults the (fault-free) model. *)
+Definition m09r (c : pcase) : bool :=
+  pc_teardown c || negb (ow_paused (pc_owner c)) || negb (is_nil (pc_between c)) ||
+  match snd (model_run c), pc_res c with
+  | OOk a f, OOk a' f' => list_eqb okey_eqb (map fst a) (map fst a') && list_eqb okey_eqb f f'
+  | OOk _ _, _ => false
+  | _, _ => true
+  end.
+Definition judge09p (c : pcase) : bool * bool := (agree c, m09p c && m09r c).
 Definition judge11p (c : pcase) : bool * bool := (agree c, m11p c).
 Definition judge11f (c : pcase) : bool * bool := (agree c, m11f c).
 Definition judge04p (c : pcase) : bool * bool := (agree c, m04p c).
